@@ -54,7 +54,7 @@ func ZZ_C08_PolicyEveryDatagram() {
 // goes to the rewritten destination (vetted by the dial) and replies are
 // reported from the original one.
 //
-//verif:harness kind=api unwind=600 preempt=0 bound=datagrams<=3,one-reply
+//verif:harness kind=api unwind=600 preempt=0 bound=datagrams<=3,one-reply-from-4-source-forms
 func ZZ_C08_HookOverride() {
 	io := &zzUDPIO{allow: map[string]bool{}, hookTo: "real:443"}
 	io.allow["real:443"] = verifBool("allowReal")
@@ -74,7 +74,9 @@ func ZZ_C08_HookOverride() {
 		verifAssert(w == "real:443", "every datagram of a hooked session goes to the rewritten destination")
 	}
 	verifAssert(len(c.writes) == 2, "both datagrams are forwarded")
-	c.replies <- zzReply{data: []byte{9}, from: "real:443"}
+	// whatever source the socket reports for the reply (the resolved address of the rewritten name, another port, nothing)
+	from := []string{"real:443", "93.184.216.34:443", "93.184.216.34:50443", ""}[verifChoice("replyFrom", 4)]
+	c.replies <- zzReply{data: []byte{9}, from: from}
 	verifQuiesce()
 	verifAssert(len(io.sent) == 1 && io.sent[0].addr == "orig:443" && io.sent[0].sid == 9, "replies are reported from the original destination, tagged with the session")
 	verifCover("hooked")
